@@ -879,9 +879,69 @@ def synthetic_graph(r):
   return dl, prov
 
 
+def graph_files(node):
+  return [node] if isinstance(node, str) else sorted(node.nodes)
+
+
+def wf_graph_py(rev, provenance):
+  """The hypothesis of deps_output_wf (Plan/GraphProofs.v wf_graph) on reversed(deps_list()): every file of every
+  dependency node occurs in an earlier node, and the source files have pairwise distinct full paths."""
+  pr = L.setup()["pr"]
+  seen = set()
+  fulls = []
+  for node, deps in rev:
+    for dn in deps:
+      if any(f not in seen for f in graph_files(dn)):
+        return False
+    for f in graph_files(node):
+      seen.add(f)
+      if not pr._is_type_stub(f):    # pylint: disable=protected-access
+        fulls.append(pr.resolved_file_to_module(provenance[f]).full_path)
+  return len(set(fulls)) == len(fulls)
+
+
+def sources_kept(rev, provenance, real):
+  """deps_members / deps_complete on the real output: the group members are exactly the graph's source files."""
+  pr = L.setup()["pr"]
+  want = [pr.resolved_file_to_module(provenance[f]) for node, _ in rev for f in graph_files(node)
+          if not pr._is_type_stub(f)]    # pylint: disable=protected-access
+  return want == [m for grp, _ in real for m in grp]
+
+
+def system_provenance_probe(root):
+  """Informational: importlab overwrites the provenance of a requested file that another input imports through the
+  interpreter's own path, so whether that requested file is analysed (Direct) or gets the default stub (System,
+  with a logged warning - by design in get_module_action) depends on the order of the inputs."""
+  from importlab import environment, fs, graph   # pylint: disable=import-outside-toplevel
+  import importlib                                # pylint: disable=import-outside-toplevel
+  pr = L.setup()["pr"]
+  d = os.path.join(root, "sysprobe")
+  shutil.rmtree(d, ignore_errors=True)
+  os.makedirs(os.path.join(d, "src")); os.makedirs(os.path.join(d, "site"))
+  with open(os.path.join(d, "src", "y.py"), "w") as f: f.write("import c19probe_xs\n")
+  with open(os.path.join(d, "site", "c19probe_xs.py"), "w") as f: f.write("v = 1\n")
+  out = {}
+  sys.path.append(os.path.join(d, "site"))
+  try:
+    importlib.invalidate_caches()
+    for tag, inputs in (("requested-first", ["site/c19probe_xs.py", "src/y.py"]), ("importer-first", ["src/y.py", "site/c19probe_xs.py"])):
+      path = fs.Path(); path.add_path(os.path.join(d, "src"), "os")
+      env = environment.Environment(path, sys.version_info[:2])
+      g = graph.ImportGraph.create(env, [os.path.join(d, i) for i in inputs], trim=True)
+      ss = pr.deps_from_import_graph(g)
+      out[tag] = [m.kind for grp, _ in ss for m in grp if m.full_path.endswith("c19probe_xs.py")]
+  except Exception as e:   # pylint: disable=broad-except
+    out["error"] = repr(e)
+  finally:
+    sys.path.remove(os.path.join(d, "site"))
+    importlib.invalidate_caches()
+  return out
+
+
 def dfig_leg(res, exe, root, r, n_syn, n_real):
   pr = L.setup()["pr"]
   n = n_bad = n_notwf = 0
+  n_graph_notwf = n_dropped = n_req_sys = 0
   stubs_seen = 0
   viol = []
   lines = []
@@ -893,6 +953,12 @@ def dfig_leg(res, exe, root, r, n_syn, n_real):
     real = pr.deps_from_import_graph(g)
     ln, it = dfig_model_line(list(reversed(dl)), prov)
     lines.append(ln); wants.append(render_sources(real, it))
+    if not wf_graph_py(list(reversed(dl)), prov):
+      n_graph_notwf += 1
+    if not sources_kept(list(reversed(dl)), prov, real):
+      n_dropped += 1
+      viol.append(("source-file-dropped", "deps_from_import_graph lost or duplicated a source file of the graph",
+                   sources_to_case(real, [])))
     stubs_seen += sum(1 for f in prov if f.endswith(".pyi"))
     fulls = [m.full_path for grp, _ in real for m in grp]
     cases.append(sources_to_case(real, [f for f in fulls if r.random() < 0.4]))
@@ -945,6 +1011,17 @@ def dfig_leg(res, exe, root, r, n_syn, n_real):
       if o != render_sources(real, it):
         n_bad += 1
         res.obligation("correspondence:deps_from_import_graph(importlab)", False, "model %r real %r" % (o[:300], render_sources(real, it)[:300]))
+      rev = list(reversed(g.deps_list()))
+      if not wf_graph_py(rev, g.provenance):
+        n_graph_notwf += 1
+        if n_graph_notwf <= 2:
+          res.obligation("hypothesis-monitor:wf_graph(importlab deps_list)", False,
+                         "project %s inputs %r: deps_list %r" % (proj, inputs, [(graph_files(a), [graph_files(b) for b in c]) for a, c in rev][:8]))
+      if not sources_kept(rev, g.provenance, real):
+        n_dropped += 1
+        viol.append(("source-file-dropped", "deps_from_import_graph lost or duplicated a source file of the importlab graph",
+                     sources_to_case(real, inputs)))
+      n_req_sys += sum(1 for grp, _ in real for m in grp if m.full_path in inputs and m.kind in ("System", "Builtin"))
       real_stats["projects"] += 1
       real_stats["cycles"] += sum(1 for grp, _ in real if len(grp) > 1)
       real_stats["system"] += sum(1 for grp, _ in real for m in grp if m.kind == "System")
@@ -977,9 +1054,15 @@ def dfig_leg(res, exe, root, r, n_syn, n_real):
     for fp, msg in L.oracle(c, outdir, impl):
       viol.append((fp, msg, c))
   res.extra["dfig_leg"] = {"synthetic_graphs": n_syn, "stub_files": stubs_seen, "importlab": real_stats,
-                           "outputs_not_wellformed": n_notwf}
+                           "outputs_not_wellformed": n_notwf, "input_graphs_not_wf_graph": n_graph_notwf,
+                           "graphs_with_dropped_or_duplicated_sources": n_dropped,
+                           "requested_files_with_system_or_builtin_provenance": n_req_sys}
+  if n_real:
+    res.extra["requested_file_provenance_depends_on_input_order(informational)"] = system_provenance_probe(root)
   res.obligation("correspondence:deps_from_import_graph+wellformedness-monitor", n_bad == 0 and n_notwf == 0,
                  "%d disagreements, %d non-well-formed outputs of %d" % (n_bad, n_notwf, n))
+  res.obligation("hypothesis-monitor:wf_graph(every synthetic and importlab graph)", n_graph_notwf == 0,
+                 "%d graphs violate the hypothesis of deps_output_wf" % n_graph_notwf)
   res.count(None, n)
   return viol
 
@@ -1099,7 +1182,9 @@ def run(res):
       "ninja's lexer/parser is modelled from lexer.in.cc / the manual and validated against the ninja 1.11.1 binary "
       "(`-t targets all`, `-t query`, `-t commands` with dummy rules; pytype is never run through ninja); "
       "ninja's path canonicalisation ('./', '//', '..') is not modelled (names with '/'-level oddities not generated)",
-      "importlab's graph construction is not modelled; the well-formedness hypothesis is monitored on its outputs",
+      "importlab's graph construction is not modelled: deps_output_wf/composed_plan_correct assume wf_graph of "
+      "reversed(deps_list()) (dependency nodes earlier, distinct source paths), monitored on every importlab graph built; "
+      "the kind (Direct/Local/System) importlab assigns to a file is taken as given",
       "the shell expansion of $imports/$module in the rule command is outside 'the plan'",
       "imports_map_loader splits at the first space: a *key* containing a space does not survive the .imports file "
       "(precondition, counted; keys are importable module paths)",
